@@ -41,6 +41,11 @@ CLAIMED = {
     "C12": ("trace validation of failing fills: outcome and full rollback (TLC, Raises)",
             "HgTree!Raises decides from the routing path whether a fill reaches a failing quantity; such a fill must raise and "
             "leave every slot unchanged; the final state must equal Sem of the surviving records."),
+    "C15": ("TLC-enumerated single-point mutations of real documents, judged by the three-valued Parse (TLC)",
+            "HgDoc!MutIds enumerates every single-point structural mutation (delete/add key, retype, rename type, drop "
+            "list element, version) of documents produced by toJson; each mutant is fed to Factory.fromJson and TLC "
+            "judges the outcome with HgParse!Parse: invalid documents must raise, valid ones must load and re-serialise "
+            "to ToDoc(FromDoc(mutant)), unmutated documents must be accepted."),
     "C16": ("trace validation of shared-node detection (TLC, SharedFillable)",
             "HgTree!SharedFillable decides from the descriptor whether one object sits at two installed positions; filling "
             "such a tree must raise with no state change, on first and later fills, row-wise and vectorised; shared "
